@@ -65,6 +65,8 @@ func runC12(c *Ctx) {
 	c.Rule("C12.O6", "E4", "per-message compression: Conn.compress is taken from a frame's RSV1 only while no message is open (msgType == 0) and cleared on the FIN edge; every inflate is decided by that field, not by the current frame's bit (only the first fragment carries RSV1)", 2)
 	c.Rule("C12.O7", "E4", "the per-message state (msgType, compress) is reset only inside the data-frame case: no path through a control frame's case reaches a reset (a Ping between two fragments must not wipe the message under assembly)", 1)
 	c.Rule("C12.O8", "E4", "pooled (de)compressors are handed back once: every sync.Pool.Put of a wrapper's reader/writer is followed on every path by clearing the wrapper's field", 2)
+	c.Rule("C12.O9", "E4", "the unparsed-input cache is compacted by copying to the front, never by re-slicing the pooled buffer from the front (same rule as C11.O9)", 1)
+	c11NoFrontReslice(c, "C12.O9")
 	c12ResetScope(c)
 	c12PoolOnce(c)
 	c.Rule("C12.O5", "E4", "reassembly: tail append; msgType assigned only while 0; reset on FIN; control frames leave message alone; the hand-off is decided by a flag set on the FIN edge, not by the buffer being non-nil", 4)
